@@ -153,16 +153,61 @@ def run_impl(case):
     wire = []
     rates = []
     calls_log = []
-    state = {"gen": 0, "calls": 0}
+    state = {"gen": 0, "calls": 0, "calls_seen": set()}
+
+    groups = {}  # runner call (request index) -> [(sent, received)]: the endpoint's request log
+    composite = bool(case.get("composite"))
+
+    def prog_of(q):
+        """request program: wire requests in (nested) request contexts; a plain request is one wire request"""
+        if "prog" in q:
+            return q["prog"]
+        return [{"t": "wire", "gap": q["pre"], "service": q["service"], "fails": False}]
 
     class SimClient(context.RequestContextHolder):
-        async def request(self, service):
+        async def request(self, service, i, fails_with=None):
+            # the real client stamps through the aiohttp trace hooks: on_request_start when the request goes out,
+            # on_request_end when the response (or an error response / exception) has arrived
             self.on_request_start()
             s = clock.now
             if service > 0:
                 await asyncio.sleep(service)
             self.on_request_end()
-            wire.append((s, clock.now))
+            groups.setdefault(i, []).append((s, clock.now))
+            if fails_with is not None:
+                raise _mk_exception(fails_with)
+
+        # --- what the real `raw-request` runner needs (composite stream) -------------------------
+        def options(self, **kwargs):
+            return self
+
+        async def perform_request(self, method, path, headers=None, body=None, params=None):
+            _, i, k = path.split("/")
+            i, k = int(i), int(k)
+            wires = [t for t in prog_of(reqs[i]) if t["t"] == "wire"]
+            tok = wires[k]
+            state["calls_seen"].add(i)
+            if case.get("complete_at") is not None and i == case["complete_at"]:
+                complete.set()
+            await self.request(q2f(tok["service"]), i, reqs[i]["out"] if tok["fails"] else None)
+
+    async def run_tokens(es, toks, pos, q, i):
+        """executes toks[pos:] up to the matching `exit`; nested contexts are real `with` blocks, so a failing wire
+        request leaves them by exception"""
+        while pos < len(toks):
+            tok = toks[pos]
+            if tok["t"] == "enter":
+                with es.new_request_context():
+                    pos = await run_tokens(es, toks, pos + 1, q, i)
+            elif tok["t"] == "exit":
+                return pos + 1
+            else:
+                gap = q2f(tok["gap"])
+                if gap > 0:
+                    await asyncio.sleep(gap)
+                await es.request(q2f(tok["service"]), i, q["out"] if tok["fails"] else None)
+                pos += 1
+        return pos
 
     class SimRunner:
         async def __call__(self, es, params):
@@ -170,17 +215,17 @@ def run_impl(case):
             q = reqs[i]
             state["calls"] += 1
             entered = clock.now
-            pre, post = q2f(q["pre"]), q2f(q["post"])
-            if pre > 0:
-                await asyncio.sleep(pre)
-            await es.request(q2f(q["service"]))
-            if post > 0:
-                await asyncio.sleep(post)
             self._completed = q.get("rc")
             self._progress = None if q.get("rp") is None else q2f(q["rp"])
             if case.get("complete_at") is not None and i == case["complete_at"]:
                 complete.set()
-            calls_log.append((entered, clock.now))
+            try:
+                await run_tokens(es, prog_of(q), 0, q, i)
+                post = q2f(q["post"])
+                if post > 0:
+                    await asyncio.sleep(post)
+            finally:
+                calls_log.append((entered, clock.now))
             v = _return_value(q["out"])
             if isinstance(v, BaseException):
                 raise v
@@ -217,6 +262,10 @@ def run_impl(case):
             clock.advance(q2f(reqs[i]["gen"]))
             if case.get("cancel_at") is not None and i == case["cancel_at"]:
                 cancel.set()
+            if composite:
+                # parameters of the real `composite` runner: one sequential stream of raw requests
+                n = len([t for t in prog_of(reqs[i]) if t["t"] == "wire"])
+                return {"requests": [{"operation-type": "raw-request", "name": f"sub-{k}", "path": f"/{i}/{k}"} for k in range(n)]}
             return {"i": i}
 
     class SourceWithProgress(Source):
@@ -242,14 +291,21 @@ def run_impl(case):
     t = case["task"]
     the_runner = SimRunnerWithCompletion() if case["runner_completion"] else SimRunner()
     source = SourceWithProgress() if case["src_progress"] else Source()
-    out = {"result": "ok", "samples": [], "tuples": [], "wire": wire, "rates": rates}
+    out = {"result": "ok", "samples": [], "tuples": [], "wire": [], "wire_groups": [], "rates": rates}
     saved_random = scheduler.random
     scheduler.random = RandomShim()
-    runner.register_runner(OP_TYPE, the_runner, async_runner=True)
+    op_type = "composite" if composite else OP_TYPE
+    if composite:
+        try:
+            runner.runner_for("composite")
+        except exceptions.RallyError:
+            runner.register_default_runners()
+    else:
+        runner.register_runner(OP_TYPE, the_runner, async_runner=True)
     try:
         task = track.Task(
             "c04-task",
-            track.Operation("c04-op", OP_TYPE, params={}),
+            track.Operation("c04-op", op_type, params={}),
             warmup_iterations=t["warmup_it"],
             iterations=t["iters"],
             warmup_time_period=num(t["warmup_t"]),
@@ -307,7 +363,20 @@ def run_impl(case):
             complete=complete,
             on_error=case["on_error"],
         )
-        _, exc = sim_vloop.run_virtual(clock, ex)
+        drained_mid = None
+        if case.get("drain_at") is not None:
+            # the worker thread drains while the executor thread is inside its j-th Sampler.add, at pre-emption point k
+            from harness import preempt
+
+            da = case["drain_at"]
+            pre = preempt.Preemptor(lambda code: code is driver.Sampler.add.__code__, lambda: list(sampler.samples), da["k"],
+                                    locks=lambda: [sampler.q.mutex], granularity="opcode", occurrence=da["add"])
+            with pre:
+                _, exc = sim_vloop.run_virtual(clock, ex)
+            out["preempt_fired"] = None if pre.fired is None else pre.fired.where()
+            drained_mid = pre.result
+        else:
+            _, exc = sim_vloop.run_virtual(clock, ex)
         if exc is not None:
             if isinstance(exc, exceptions.RallyError) and type(exc) is exceptions.RallyError:
                 msg = str(exc)
@@ -321,13 +390,17 @@ def run_impl(case):
                     out["result"] = "RallyError:other"
                 elif "division by zero" in msg:
                     out["result"] = "RallyError:zero-division"
+                elif "unsupported operand type(s) for -: 'NoneType'" in msg:
+                    out["result"] = "RallyError:no-timestamps"
                 else:
                     out["result"] = "RallyError:?" + msg
                 out["message"] = msg
             else:
                 out["result"] = "raised:" + type(exc).__name__
                 out["message"] = str(exc)
-        for s in sampler.samples:
+        final_drain = sampler.samples
+        out["batches"] = [len(drained_mid or []), len(final_drain)]
+        for s in (drained_mid or []) + final_drain:
             md = s.request_meta_data or {}
             out["samples"].append(
                 {
@@ -354,13 +427,18 @@ def run_impl(case):
         out["tuples"] = [{"sched": a, "warmup": b == metrics.SampleType.Warmup, "pc": cc, "at": at} for (a, b, cc, at) in tuples]
         out["complete_set"] = complete.is_set()
         out["end"] = clock.now
-        out["runner_calls"] = state["calls"]
-        out["calls_log"] = calls_log
+        out["runner_calls"] = len(state["calls_seen"]) if composite else state["calls"]
+        out["calls_log"] = None if composite else calls_log
+        called = sorted(groups) if composite else list(range(state["calls"]))
+        out["wire_groups"] = [groups.get(i, []) for i in called]
+        # per runner call: (first request sent, last response received); a call without any wire request has no span
+        out["wire"] = [(g[0][0], g[-1][1]) if g else None for g in out["wire_groups"]]
         out["partition_args"] = list(getattr(source, "partition_args", ()))
         return out
     finally:
         scheduler.random = saved_random
-        runner.remove_runner(OP_TYPE)
+        if not composite:
+            runner.remove_runner(OP_TYPE)
 
 
 # ------------------------------------------------------------------------------------------------
@@ -395,7 +473,7 @@ def canon_impl(o):
         "sched": [str(frac(t["sched"])) for t in o.get("tuples", [])],
         "tuple_warmup": [t["warmup"] for t in o.get("tuples", [])],
         "tuple_pc": [None if t["pc"] is None else str(frac(t["pc"])) for t in o.get("tuples", [])],
-        "wire": [[str(frac(a)), str(frac(b))] for a, b in o.get("wire", [])],
+        "wire": [[[str(frac(a)), str(frac(b))] for a, b in g] for g in o.get("wire_groups", [])],
         "rates": [str(frac(r)) for r in o.get("rates", [])],
         "complete_set": o.get("complete_set"),
         "end": None if o.get("end") is None else str(frac(o["end"])),
@@ -413,7 +491,7 @@ def canon_model(m):
         "sched": [str(frac(x)) for x in r["sched"]],
         "tuple_warmup": r["tuple_warmup"],
         "tuple_pc": [None if x is None else str(frac(x)) for x in r["tuple_pc"]],
-        "wire": [[str(frac(a)), str(frac(b))] for a, b in r["wire"]],
+        "wire": [[[str(frac(a)), str(frac(b))] for a, b in g] for g in r["wire"]],
         "rates": [str(frac(x)) for x in r["rates"]],
         "complete_set": r["complete_set"],
         "end": str(frac(r["end"])),
@@ -682,6 +760,80 @@ def gen_case(rng, exact, profile):
     }
 
 
+RAISING_KINDS = ("api", "transport", "timeout", "tls", "connection", "key", "value")
+
+
+def gen_prog(rng, exact, base, out, flat_composite=False):
+    """a request program: 1..5 wire requests, grouped in nested request contexts of depth 0..3 (a group = one `with`
+    block around several wire requests, e.g. a scroll inside a composite item), optionally an empty context; when the
+    outcome is an exception, the wire request that fails is at any position (or none: the runner raises afterwards)"""
+    n = rng.choice([1, 1, 2, 2, 3, 4, 5])
+    wires = []
+    for _ in range(n):
+        gap = Fraction(0) if (flat_composite or rng.random() < 0.5) else gen_overhead(rng, exact)
+        wires.append({"t": "wire", "gap": qs(gap), "service": qs(gen_duration(rng, exact, base / n, "timing")), "fails": False})
+    if out["k"] in RAISING_KINDS and (flat_composite or rng.random() < 0.85):
+        wires[rng.randrange(n)]["fails"] = True
+    if flat_composite:
+        toks = []
+        for w in wires:
+            toks += [{"t": "enter"}, w, {"t": "exit"}]
+        return toks
+
+    def block(ws, depth):
+        """split ws into consecutive pieces; each piece is either left as is or wrapped in a nested context"""
+        toks = []
+        i = 0
+        while i < len(ws):
+            j = rng.randrange(i + 1, len(ws) + 1)
+            piece = ws[i:j]
+            if depth < 3 and rng.random() < 0.6:
+                toks += [{"t": "enter"}] + (block(piece, depth + 1) if len(piece) > 1 and rng.random() < 0.5 else list(piece)) + [{"t": "exit"}]
+            else:
+                toks += list(piece)
+            if rng.random() < 0.05:
+                toks += [{"t": "enter"}, {"t": "exit"}]  # a context in which nothing goes on the wire
+            i = j
+        return toks
+
+    return block(wires, 0)
+
+
+def add_programs(rng, case, exact, share=0.6, flat_composite=False):
+    """turn the plain requests of a case into request programs (in place)"""
+    tp = _tput_reading(case)
+    base = Fraction(1, 4)
+    if tp is not None and tp[0] > 0:
+        base = min(Fraction(case["task"]["clients"]) / tp[0], Fraction(30))
+        if exact:
+            base = Fraction(float(base)).limit_denominator(1024) or Fraction(1, 4)
+    for q in case["reqs"]:
+        if flat_composite or rng.random() < share:
+            if flat_composite:
+                q["out"] = q["out"] if q["out"]["k"] in ("api", "transport", "timeout", "tls", "connection") else {"k": "dict", "w": 1, "unit": "ops", "success": None, "tput": None, "etype": None}
+                if q["out"]["k"] == "transport":
+                    q["out"]["status"] = None
+                q["post"] = "0/1"
+            q["prog"] = gen_prog(rng, exact, base, q["out"], flat_composite)
+            q.pop("pre", None)
+            q.pop("service", None)
+        elif rng.random() < 0.01 and not flat_composite:
+            q["prog"] = rng.choice([[], [{"t": "enter"}, {"t": "exit"}]])  # a runner call that sends nothing
+            q.pop("pre", None)
+            q.pop("service", None)
+    return case
+
+
+def first_gap(q):
+    """client-side time before the first wire request of a runner call (None: no wire request)"""
+    if "prog" not in q:
+        return Fraction(q["pre"])
+    for t in q["prog"]:
+        if t["t"] == "wire":
+            return max(Fraction(0), Fraction(t["gap"]))
+    return None
+
+
 # ------------------------------------------------------------------------------------------------
 # running one case: model (IEEE mode always, exact-rational mode for dyadic cases) vs implementation
 # ------------------------------------------------------------------------------------------------
@@ -754,10 +906,13 @@ def oracle_c04(ctx, case, impl):
     n_wire = len(wire)
     # --- abort_raises
     for i in range(n_wire):
-        if _raising(case, reqs[i]["out"]) and not (raised and i == n_wire - 1):
+        if (_raising(case, reqs[i]["out"]) or wire[i] is None) and not (raised and i == n_wire - 1):
             ctx.fail("abort-policy", f"request {i} must abort the executor but the run went on", "RallyError", impl["result"])
     if impl["result"] in ("RallyError:assertion", "RallyError:setup", "RallyError:other") and (n_wire == 0 or not _raising(case, reqs[n_wire - 1]["out"])):
         ctx.fail("spurious-abort", "executor raised although the last request must not abort", "ok", impl["result"])
+    if impl["result"] == "RallyError:no-timestamps" and (n_wire == 0 or wire[n_wire - 1] is not None):
+        ctx.fail("lost-timestamps", "the runner call sent wire requests and got their responses, but the executor found no request timestamps: "
+                 "executed request without a sample", "one sample", impl.get("message"))
     # --- one_sample_per_request
     executed = n_wire - (1 if raised else 0)
     if impl["runner_calls"] != n_wire:
@@ -772,9 +927,15 @@ def oracle_c04(ctx, case, impl):
         service, processing, latency = Fraction(s["service"]), Fraction(s["processing"]), Fraction(s["latency"])
         if not close(service, w1 - w0, exact):
             ctx.fail("service-span", f"sample {i}: service time is not response - request", str(w1 - w0), str(service))
-        c0, c1 = (Fraction(x) for x in impl["calls_log"][i])
-        if not (close(processing, c1 - c0, exact) and c0 <= w0 and w1 <= c1):
-            ctx.fail("processing-span", f"sample {i}: processing time is not the span of the runner call around the wire request", str(c1 - c0), str(processing))
+        if impl.get("calls_log") is not None:
+            c0, c1 = (Fraction(x) for x in impl["calls_log"][i])
+            if not (close(processing, c1 - c0, exact) and c0 <= w0 and w1 <= c1):
+                ctx.fail("processing-span", f"sample {i}: processing time is not the span of the runner call around the wire requests", str(c1 - c0), str(processing))
+        grp = impl["wire_groups"][i]
+        if len(grp) > 1:
+            ctx.count("oracle:multi-wire-sample")
+        if any(Fraction(a) < w0 or Fraction(b) > w1 for a, b in grp):
+            raise HarnessError("endpoint log of one runner call is not ordered")
         if not (service >= 0 and geq(processing, service, exact)):
             ctx.fail("service-range", f"sample {i}: 0 <= service <= processing violated", None, [str(service), str(processing)])
         if s["client"] != case["client"]["id"] or not s["task_is_task"] or s["warmup"] != tup["warmup"] or Fraction(s["start"]) != w0:
@@ -882,6 +1043,8 @@ def oracle_c05(ctx, case, impl):
         for i, tup in enumerate(tuples):
             # the loop control looks at the clock somewhere between the previous response (task start for the first
             # request) and the moment this request goes out: "one request straddling the boundary may fall on either side"
+            if (i > 0 and wire[i - 1] is None) or (i < len(wire) and wire[i] is None):
+                continue
             lo = t0 if i == 0 else Fraction(wire[i - 1][1])
             hi = Fraction(wire[i][0]) if i < len(wire) else Fraction(tup["at"])
             if not lo < deadline + tol:
@@ -893,7 +1056,7 @@ def oracle_c05(ctx, case, impl):
             pc = None if tup["pc"] is None else Fraction(tup["pc"])
             if pc is None or not (0 <= pc <= 1) or (dur and not ((lo - t0) / dur - TOL <= pc <= (hi - t0) / dur + TOL)):
                 ctx.fail("progress", f"request {i}: progress is not elapsed/duration", [str((lo - t0) / dur), str((hi - t0) / dur)] if dur else None, tup["pc"])
-        late = [w for w in wire if Fraction(w[0]) >= deadline + tol]
+        late = [w for w in wire if w is not None and Fraction(w[0]) >= deadline + tol]
         if len(late) > 1:
             ctx.fail("time-stop", "more than one request issued after warmup-time-period + time-period", 1, len(late))
         if late:
@@ -952,7 +1115,8 @@ def oracle_c05(ctx, case, impl):
     if ramp and wire:
         c = case["client"]
         delay = ramp * c["gidx"] / c["total"]
-        first = t0 + delay + Fraction(reqs[0]["gen"]) + Fraction(reqs[0]["pre"])
-        if not close(Fraction(wire[0][0]), first, exact):
+        fg = first_gap(reqs[0])
+        first = t0 + delay + Fraction(reqs[0]["gen"]) + (fg or 0)
+        if fg is not None and wire[0] is not None and not close(Fraction(wire[0][0]), first, exact):
             ctx.fail("ramp-up", "first request is not issued ramp-up*i/total after the task start", str(first), str(wire[0][0]))
         ctx.count("oracle:ramp-up")
